@@ -1,0 +1,63 @@
+//go:build verif
+
+package tools
+
+import (
+	"fmt"
+	"io"
+	"os"
+	"strconv"
+	"strings"
+	"syscall"
+)
+
+// VerifPoint marks a storage-mutating step.  With VERIF_CRASH_COUNTER set it
+// takes the next ordinal from that file (shared by every git-lfs process of a
+// scenario, under flock), appends "<ordinal> <name>" to VERIF_CRASH_LOG when
+// set, and kills its own process with SIGKILL when the ordinal equals
+// VERIF_CRASH_AT.  Without VERIF_CRASH_COUNTER it does nothing.
+func VerifPoint(name string) {
+	counter := os.Getenv("VERIF_CRASH_COUNTER")
+	if counter == "" {
+		return
+	}
+	f, err := os.OpenFile(counter, os.O_RDWR|os.O_CREATE, 0644)
+	if err != nil {
+		return
+	}
+	syscall.Flock(int(f.Fd()), syscall.LOCK_EX)
+	b, _ := io.ReadAll(f)
+	n, _ := strconv.Atoi(strings.TrimSpace(string(b)))
+	n++
+	f.Truncate(0)
+	f.Seek(0, 0)
+	fmt.Fprintf(f, "%d\n", n)
+	if logp := os.Getenv("VERIF_CRASH_LOG"); logp != "" {
+		if lf, err := os.OpenFile(logp, os.O_APPEND|os.O_WRONLY|os.O_CREATE, 0644); err == nil {
+			fmt.Fprintf(lf, "%d %s pid=%d %s\n", n, name, os.Getpid(), strings.Join(os.Args[1:], " "))
+			lf.Close()
+		}
+	}
+	syscall.Flock(int(f.Fd()), syscall.LOCK_UN)
+	f.Close()
+	if at := os.Getenv("VERIF_CRASH_AT"); at != "" && at == strconv.Itoa(n) {
+		syscall.Kill(os.Getpid(), syscall.SIGKILL)
+		select {}
+	}
+}
+
+type verifWriter struct{ w io.Writer }
+
+func (v verifWriter) Write(p []byte) (int, error) {
+	n, err := v.w.Write(p)
+	VerifPoint("copy.burst")
+	return n, err
+}
+
+// verifWrapWriter makes every write burst of a copy a crash point.
+func verifWrapWriter(w io.Writer) io.Writer {
+	if os.Getenv("VERIF_CRASH_COUNTER") == "" {
+		return w
+	}
+	return verifWriter{w}
+}
